@@ -145,6 +145,11 @@ type world struct {
 	onExec       func(n *nodeState, call int, known bool) (xfate, chan struct{}, bool)
 }
 
+// badValue: nvals = badValue + n stands for n bound values one of which cannot be marshalled into any column type. For
+// the specification that is a value list that matches no bind metadata (its 'number' equals no column count): the
+// execution must end with the value error and send nothing, exactly as for a wrong number of values.
+const badValue = 1000
+
 type entrySpec struct {
 	stmt  int
 	nvals int
@@ -781,6 +786,14 @@ func (w *world) classify(c *callSpec, err error) string {
 	for _, e := range c.prepared() {
 		keys = append(keys, keyLabel(c.host, e.stmt))
 	}
+	if strings.HasPrefix(err.Error(), "can not marshal ") {
+		// the value error, if the call did bind a value that cannot be marshalled (otherwise: outside the specification)
+		for _, e := range c.prepared() {
+			if e.nvals >= badValue {
+				return "ce"
+			}
+		}
+	}
 	if _, isReq := err.(gocql.RequestError); !isReq {
 		if n, ok := w.failedPrepareSerial(err.Error(), keys); ok {
 			return fmt.Sprintf("pe/%d", n)
@@ -814,6 +827,9 @@ func classify(err error) string {
 	}
 	if strings.HasPrefix(msg, "gocql: expected ") || strings.HasPrefix(msg, "gocql: batch statement ") {
 		return "ce"
+	}
+	if strings.HasPrefix(msg, "can not marshal ") {
+		return "ce-marshal"
 	}
 	return "other/" + sanitize(msg)
 }
@@ -877,9 +893,20 @@ func (w *world) doCall(c *callSpec) {
 	}
 	w.h.mu.Unlock()
 	vals := func(n int) []interface{} {
+		bad := -1
+		if n >= badValue {
+			// n - badValue values, one of which no column type accepts (Marshal fails: reported, not sent)
+			n -= badValue
+			if n > 0 {
+				bad = num % n
+			}
+		}
 		v := make([]interface{}, n)
 		for i := range v {
 			v[i] = i
+			if i == bad {
+				v[i] = struct{}{}
+			}
 		}
 		return v
 	}
@@ -1283,6 +1310,8 @@ func (rn *runner) randomWith(near bool) {
 				e := entrySpec{stmt: s, nvals: w.stmts[s].ncols}
 				if r.Intn(12) == 0 {
 					e.nvals = r.Intn(4)
+				} else if r.Intn(16) == 0 && e.nvals > 0 {
+					e.nvals += badValue
 				}
 				return e
 			}
@@ -2383,6 +2412,8 @@ func (rn *runner) sequential() {
 			e := entrySpec{stmt: s, nvals: sp.cols[s]}
 			if r.Intn(10) == 0 {
 				e.nvals = r.Intn(4)
+			} else if r.Intn(14) == 0 && e.nvals > 0 {
+				e.nvals += badValue
 			}
 			return e
 		}
